@@ -113,9 +113,8 @@ def rand_mps(rng, qd, L, profile='random', Dmax=5, kind='complex', q0=0, layout=
         A = entries(rng, shape, kind)
         mask = np.add.outer(np.add.outer(np.asarray(qd), qD[i]), -qD[i + 1])
         A = np.where(mask == 0, A, 0).astype(A.dtype)
-        if kind not in ('int',):
-            A = A / np.sqrt(max(1, np.count_nonzero(mask == 0) / max(1, shape[2])))
-            A = A.astype(entries(rng, (1,), kind).dtype)
+        if kind != 'int':
+            A = (A / np.sqrt(d * shape[1])).astype(A.dtype)
         psi.A[i] = A
     return psi
 
